@@ -253,7 +253,11 @@ class LiftGen:
             for bi in range(rnd.randrange(1, 4)):
                 insts.append(Inst(g.opv["Label"], "Label", None, fresh(), []))
                 args = []
-                for _ in range(rnd.randrange(0, 2)):
+                # zero to three phis, with line information in front of, between or behind them (OpLine may appear anywhere in a block and is
+                # skipped by the lifter; every phi contributes one block argument, in order)
+                for _ in range(rnd.choice([0, 0, 1, 1, 2, 3])):
+                    if rnd.random() < 0.3:
+                        insts.append(Inst(g.opv["Line"], "Line", None, None, [Op("w", idr, 1), Op("w", lit, 2), Op("w", lit, 3)]))
                     pt = rnd.choice(types)
                     insts.append(Inst(g.opv["Phi"], "Phi", pt, fresh(), [Op("w", idr, 9000 + rnd.randrange(9)), Op("w", idr, 9100)]))
                     args.append("t%d" % tok[pt])
